@@ -97,7 +97,8 @@ func c06compressed(c *mon.Ctx, b []byte, cls string, rng *rand.Rand) {
 				break
 			}
 			ga := got.Affine()
-			if ga.X.Cmp(wantPt.X) != 0 || ga.Y.Cmp(wantPt.Y) != 0 {
+			// either member of the class is a correct decoding of the element
+			if !ga.OnCurve() || !ref.ClassEqualAffine(ga, wantPt) {
 				c.Fail("decoded-wrong-point/"+d.name, fmt.Sprintf("%s(%s) decodes to (%s,%s), reference (%s,%s)", d.name, hx(snap), ga.X.Text(16), ga.Y.Text(16), wantPt.X.Text(16), wantPt.Y.Text(16)), nil)
 			}
 			re := e.Bytes()
@@ -150,8 +151,8 @@ func c06uncompressed(c *mon.Ctx, b []byte, cls string, rng *rand.Rand) {
 			break
 		}
 		ga := got.Affine()
-		if ga.X.Cmp(want.X) != 0 || ga.Y.Cmp(want.Y) != 0 {
-			c.Fail("decoded-wrong-point/SetBytesUncompressed", "decoded coordinates differ from the reference for "+hx(snap), nil)
+		if !ga.OnCurve() || !ref.ClassEqualAffine(ga, want) {
+			c.Fail("decoded-wrong-point/SetBytesUncompressed", "decoded element differs from the reference for "+hx(snap), nil)
 		}
 		re := e.BytesUncompressedTrusted()
 		if !bytes.Equal(re[:], snap) {
